@@ -638,6 +638,43 @@ class B(object):
         if is_method:
             self.features.add('method')
         own_forbid = (fname,) if self.profile == 'c03' else ()
+        if not ctx.get('in_func') and not ctx.get('in_class') and not is_method and self.chance(7):
+            # the complete two-level pattern: the enclosing function binds g as its own local, the inner function (no parameters,
+            # no bindings) declares g global and only reads it
+            g = self.pick([n for n in POOL if n != fname])
+            if self.chance(50):
+                # a name nothing binds at module level: the read is unbound on every path
+                self._gro = getattr(self, '_gro', 0) + 1
+                g = 'gro%d' % self._gro
+            inner = self.pick([f for f in FUNCS if f != fname] or FUNCS)
+            self.features.add('read-only-global-function')
+            self.features.add('nested-def')
+            lines = [ind + 'def %s(%s):' % (fname, g if self.chance(40) else 'p0')]
+            if not lines[0].endswith('(%s):' % g) or self.chance(50):
+                lines.append(ind + '    %s = %s' % (g, self.expr(ctx, 1, (g,))))
+            lines += [ind + '    def %s():' % inner, ind + '        global %s' % g,
+                      ind + '        ' + self.pick(['use(%s)', 'return use(%s)', 'return %s', 'if %s: pass']) % g]
+            lines.append(ind + '    ' + self.pick(['%s()' % inner, 'return %s()' % inner, 'use(%s)\n%s    %s()' % (g, ind, inner)]))
+            self.funcs[fname] = (1, 1, [], [])
+            self.bind(ctx, [fname])
+            lines += self._call_stmt(ctx, ind, fname)
+            return lines
+        if ctx.get('in_func') and not is_method and self.chance(20):
+            # a nested function without parameters and without bindings of its own that only READS a name it declares global
+            # (or nonlocal): the enclosing function's binding of that name must not be what it sees
+            g = self.pick([n for n in ctx.get('bound', []) if n in POOL and n != fname] * 3 + [n for n in POOL if n != fname])
+            outer = [n for n in ctx.get('enclosing_params', []) if n != 'self' and n not in ctx.get('declared', [])]
+            decl = 'global'
+            if outer and self.chance(30):
+                g, decl = self.pick(outer), 'nonlocal'
+            self.features.add('read-only-%s-function' % decl)
+            lines = [ind + 'def %s():' % fname, ind + '    %s %s' % (decl, g)]
+            lines.append(ind + '    ' + self.pick(['use(%s)', 'return use(%s)', 'return %s', 'use(%s, %s)'.replace('%s, %s', '%s') , 'if %s: pass']) % g)
+            self.funcs[fname] = (0, 0, [], [])
+            self.bind(ctx, [fname])
+            if self.chance(85):
+                lines += self._call_stmt(ctx, ind, fname)
+            return lines
         deco = []
         if self.chance(20):
             self.features.add('decorator')
